@@ -193,7 +193,7 @@ def h14d(c, n_updates=2):
     times and a market definition that can change (turn in-play, rescheduled start): active <=> the documented rule on the
     definition in force"""
     from flumine.streams.historicalstream import FlumineMarketStream, HistoricListener
-    mode = c.choose("filter", ["none", "inplay-true", "inplay-false", "seconds-to-start", "max-inplay-seconds"])
+    mode = c.choose("filter", ["none", "inplay-true", "inplay-false", "seconds-to-start", "max-inplay-seconds", "inplay-false+seconds-to-start"])
     c.tag("filter", mode)
     kw = {}
     sts = mis = None
@@ -207,6 +207,11 @@ def h14d(c, n_updates=2):
     elif mode == "max-inplay-seconds":
         mis = c.int("max_inplay_seconds", 0, 7200)
         kw["max_inplay_seconds"] = mis
+    elif mode == "inplay-false+seconds-to-start":
+        # (the combination of the documentation's listener_kwargs example: pre-play data of the last N seconds only)
+        sts = c.int("seconds_to_start", 1, 7200)
+        kw["inplay"] = False
+        kw["seconds_to_start"] = sts
     listener = HistoricListener(max_latency=None, update_clk=False, **kw)
     stream = FlumineMarketStream(listener, 123)
     # environment: the local time zone of the process running the backtest (any offset from UTC): what is delivered must not depend on it
@@ -251,6 +256,9 @@ def h14d(c, n_updates=2):
                 exp = c.Not(secs > sts)
             elif mode == "max-inplay-seconds" and inplay_since is not None:
                 exp = c.Not((tms - inplay_since) / 1000 > mis)
+            elif mode == "inplay-false+seconds-to-start":
+                secs = (mt_us[cur["marketTime"]] - tms * 1000) / 1000000
+                exp = c.And(not cur["inPlay"], c.Not(secs > sts))
         c.ob("update%d.active<=>filter-rule" % k, (exp if active else c.Not(exp)) if not isinstance(exp, bool) else active == exp)
         if not active:
             c.cover("filtered-out")
